@@ -10,6 +10,9 @@ import (
 // ErrInjected is the transport error injected by fault plans.
 var ErrInjected = errors.New("tx: injected transport error")
 
+// ErrTransient is returned once by a source at each of its StallAt offsets.
+var ErrTransient = errors.New("tx: transient transport error (nothing consumed)")
+
 // ErrRunaway is returned when a source is read implausibly often: the code
 // under test is looping without consuming input.
 var ErrRunaway = errors.New("tx: runaway reader (too many Read calls)")
@@ -23,6 +26,12 @@ type Src struct {
 	Sizes       []int
 	EOFWithData bool
 	End         error
+
+	// StallAt: stream offsets at which one Read returns (0, ErrTransient) before any
+	// byte at that offset is served (a read deadline firing between two frames); the
+	// next Read continues normally. Chunks never run across a pending stall offset.
+	StallAt map[int]bool
+	Stalls  int
 
 	Pos      int
 	Reads    int
@@ -57,7 +66,17 @@ func (s *Src) Read(p []byte) (int, error) {
 	if rem == 0 {
 		return 0, s.end()
 	}
+	if s.StallAt[s.Pos] {
+		delete(s.StallAt, s.Pos)
+		s.Stalls++
+		return 0, ErrTransient
+	}
 	n := len(p)
+	for off := range s.StallAt {
+		if off > s.Pos && off-s.Pos < n {
+			n = off - s.Pos
+		}
+	}
 	if len(s.Sizes) > 0 {
 		c := s.Sizes[s.i%len(s.Sizes)]
 		s.i++
